@@ -42,6 +42,9 @@ VALUES = [
     ("f0", "func"), ("f1", "func"), ("f2", "func"), ("fd", "func"), ("fv", "func"),
     ("(lambda: 0)", "func"), ("(lambda a: a)", "func"),
     ("2", "scalar"), ("'r'", "str"), ("False", "scalar"), ("[1, 2]", "homo"), ("(1, 'a', 0)", "tuple"),
+    # tuples whose elements share a class but differ in their parameters (first conforms, later does not)
+    ("([1], ['a'])", "tuple"), ("([1], [2])", "tuple"), ("((1,), ('a',))", "tuple"), ("({'k': 1}, {'k': 'a'})", "tuple"),
+    ("(A(), A(), C())", "tuple"),
 ]
 
 SCALARS = ["int", "float", "complex", "str", "bytes", "bool", "None", "object", "Any", "A", "B", "C"]
@@ -59,6 +62,7 @@ def annotations(tier):
   out += ["tuple[()]", "tuple[int]", "tuple[int, str]", "tuple[A, B]", "Tuple[int, str]"]
   out += ["Union[int, str]", "int | None", "Union[A, C]", "Union[list[int], str]", "Optional[A]"]
   out += ["list", "dict", "tuple", "set", "type", "Callable"]
+  out += ["tuple[list[int], ...]", "Sequence[list[int]]", "Iterable[tuple[int]]", "tuple[dict[str, int], ...]", "tuple[A, ...]"]
   out += ["Callable[[], int]", "Callable[[int], int]", "Callable[..., Any]", "Callable[[int, int], Any]",
           "Callable[[], Any]"]
   if tier != "quick":
